@@ -239,6 +239,8 @@ pub struct DevOp {
     pub want: u64,
     pub moved: u64,
     pub ok: bool,
+    /// 0 no error, 1 hard error, 2 interrupted, 3 write returned Ok(0)
+    pub err: u8,
     /// payload of a write (only when write recording is on)
     pub data: Option<Vec<u8>>,
 }
@@ -440,11 +442,13 @@ impl Read for SimDisk {
             want: buf.len() as u64,
             moved: 0,
             ok: true,
+            err: 0,
             data: None,
         };
         let limit = match pre {
             Pre::Fail(e) => {
                 op.ok = false;
+                op.err = if e.kind() == ErrorKind::Interrupted { 2 } else { 1 };
                 ctx.log_op(op);
                 return Err(e);
             }
@@ -490,15 +494,18 @@ impl Write for SimDisk {
             want: buf.len() as u64,
             moved: 0,
             ok: true,
+            err: 0,
             data: None,
         };
         let limit = match pre {
             Pre::Fail(e) => {
                 op.ok = false;
+                op.err = if e.kind() == ErrorKind::Interrupted { 2 } else { 1 };
                 ctx.log_op(op);
                 return Err(e);
             }
             Pre::Zero => {
+                op.err = 3;
                 ctx.log_op(op);
                 return Ok(0);
             }
@@ -513,6 +520,7 @@ impl Write for SimDisk {
             let room = cap.saturating_sub(pos) as usize;
             if room == 0 {
                 op.ok = false;
+                op.err = 1;
                 ctx.log_op(op);
                 return Err(injected(ErrorKind::Other, "no space left on device"));
             }
@@ -556,10 +564,12 @@ impl Write for SimDisk {
             want: 0,
             moved: 0,
             ok: true,
+            err: 0,
             data: None,
         };
         if let Pre::Fail(e) = pre {
             op.ok = false;
+            op.err = 1;
             ctx.log_op(op);
             return Err(e);
         }
@@ -586,10 +596,12 @@ impl Seek for SimDisk {
             want: 0,
             moved: 0,
             ok: true,
+            err: 0,
             data: None,
         };
         if let Pre::Fail(e) = pre {
             op.ok = false;
+            op.err = 1;
             ctx.log_op(op);
             return Err(e);
         }
@@ -600,6 +612,7 @@ impl Seek for SimDisk {
         };
         if new < 0 || new > u64::MAX as i128 {
             op.ok = false;
+            op.err = 1;
             ctx.log_op(op);
             return Err(io::Error::new(
                 ErrorKind::InvalidInput,
@@ -646,11 +659,13 @@ impl Read for PipeSrc {
             want: buf.len() as u64,
             moved: 0,
             ok: true,
+            err: 0,
             data: None,
         };
         let limit = match pre {
             Pre::Fail(e) => {
                 op.ok = false;
+                op.err = if e.kind() == ErrorKind::Interrupted { 2 } else { 1 };
                 ctx.log_op(op);
                 return Err(e);
             }
@@ -706,15 +721,18 @@ impl Write for PipeSink {
             want: buf.len() as u64,
             moved: 0,
             ok: true,
+            err: 0,
             data: None,
         };
         let limit = match pre {
             Pre::Fail(e) => {
                 op.ok = false;
+                op.err = if e.kind() == ErrorKind::Interrupted { 2 } else { 1 };
                 ctx.log_op(op);
                 return Err(e);
             }
             Pre::Zero => {
+                op.err = 3;
                 ctx.log_op(op);
                 return Ok(0);
             }
@@ -745,10 +763,12 @@ impl Write for PipeSink {
             want: 0,
             moved: 0,
             ok: true,
+            err: 0,
             data: None,
         };
         if let Pre::Fail(e) = pre {
             op.ok = false;
+            op.err = 1;
             ctx.log_op(op);
             return Err(e);
         }
